@@ -256,6 +256,9 @@ print(json.dumps(out))
 """
 
 
+FRESH_MAX = 8000
+
+
 def fresh_leg(histories, spec, verbose=False):
     """Returns list of (history, symptom)."""
     s = Sys(spec)
@@ -298,32 +301,6 @@ def run(tier, seed, log):
     tot = dict(states=0, transitions=0, validated=0, nontrivial=0, outcomes=0, fresh=0)
     pools_ev, samples = [], []
     exhaustive = True
-    for spec in POOLS[tier]:
-        log(f"[{PROP}] pool {spec}")
-        res = engine_h.explore(Sys(spec), seed=seed, log=log, collect=spec.get("fresh", False))
-        for fp, (n, rec) in res.viols.items():
-            rec = dict(rec)
-            rec["pool"] = spec
-            rep.add(fp, rec, n)
-        nfresh = 0
-        if spec.get("fresh"):
-            hs = res.all_histories
-            bad = fresh_leg(hs, spec)
-            nfresh = 2 * len(hs)
-            for h, sym in bad:
-                rep.add(sym, {"kind": "fresh", "history": [list(o) for o in h], "pool": spec})
-        tot["states"] += res.states
-        tot["transitions"] += res.transitions
-        tot["validated"] += res.validated
-        tot["nontrivial"] += res.nontrivial
-        tot["outcomes"] += len(res.outcomes)
-        tot["fresh"] += nfresh
-        exhaustive = exhaustive and res.exhaustive
-        pools_ev.append({"pool": spec, "states": res.states, "transitions": res.transitions,
-                         "fresh_interpreter_loads": nfresh, "pruned_asymmetric": res.pruned,
-                         "max_depth": res.depth, "fixpoint": res.exhaustive, "cap_hit": res.cap,
-                         "wall_s": round(res.wall, 1)})
-        samples += [{"pool": spec["alpha"], "history": h} for h in res.sample_histories[-3:]]
     pump = PUMPED[tier]
     pstates = ptrans = 0
     for n in pump["ns"]:
@@ -344,6 +321,36 @@ def run(tier, seed, log):
                              "hub / last spoke, focused mutators, flag toggle; every history of <= depth ops)",
                      "hub_degrees": pump["ns"], "depth": pump["depth"], "states": pstates,
                      "transitions": ptrans, "fixpoint": False})
+    for spec in POOLS[tier]:
+        log(f"[{PROP}] pool {spec}")
+        res = engine_h.explore(Sys(spec), seed=seed, log=log, collect=spec.get("fresh", False))
+        for fp, (n, rec) in res.viols.items():
+            rec = dict(rec)
+            rec["pool"] = spec
+            rep.add(fp, rec, n)
+        nfresh = 0
+        if spec.get("fresh"):
+            hs = res.all_histories
+            if len(hs) > FRESH_MAX:
+                # (only happens when the state space is far larger than on the pinned tree)
+                log(f"[{PROP}] fresh-interpreter leg limited to the first {FRESH_MAX} of {len(hs)} states (BFS order)")
+                hs = hs[:FRESH_MAX]
+            bad = fresh_leg(hs, spec)
+            nfresh = 2 * len(hs)
+            for h, sym in bad:
+                rep.add(sym, {"kind": "fresh", "history": [list(o) for o in h], "pool": spec})
+        tot["states"] += res.states
+        tot["transitions"] += res.transitions
+        tot["validated"] += res.validated
+        tot["nontrivial"] += res.nontrivial
+        tot["outcomes"] += len(res.outcomes)
+        tot["fresh"] += nfresh
+        exhaustive = exhaustive and res.exhaustive
+        pools_ev.append({"pool": spec, "states": res.states, "transitions": res.transitions,
+                         "fresh_interpreter_loads": nfresh, "pruned_asymmetric": res.pruned,
+                         "max_depth": res.depth, "fixpoint": res.exhaustive, "cap_hit": res.cap,
+                         "wall_s": round(res.wall, 1)})
+        samples += [{"pool": spec["alpha"], "history": h} for h in res.sample_histories[-3:]]
     rep.coverage = {
         "states": tot["states"], "transitions": tot["transitions"],
         "traces_validated_against_impl": tot["validated"],
